@@ -8,33 +8,40 @@ import (
 
 func scenarios(r *ev.Run) []scenario {
 	both := func(fs string) []cfg { return []cfg{{fs, true}, {fs, false}} }
+	th := r.Thorough()
 	// KC: one bucket, 3 keys, full cursor alphabet (deepest)
-	kc := scenario{Name: "keys+cursor", Cfgs: both(fsLarge), MaxTx: 3, Reopen: 1, Hold: true,
+	kc := scenario{Name: "keys+cursor", Cfgs: both(fsLarge), MaxTx: r.Pick(2, 3), Reopen: 1, Hold: true, HoldNeverOnly: !th, ObsBuckets: []string{""}, NoBlockObs: true,
 		WOps:  []string{"put::k1:A", "put::k2:A", "put::k3:", "del::k1", "del::k2", "del::k3", "cf:", "cl:", "cs::k2", "cs::k25", "cn", "cp", "cd"},
 		ROps:  []string{"cf:", "cl:", "cs::k2", "cs::k25", "cn", "cp"},
-		Depth: r.Pick(5, 6)}
+		Depth: r.Pick(4, 5)}
+	if !th {
+		kc.WOps = []string{"put::k1:A", "put::k2:A", "put::k3:", "del::k1", "del::k2", "cf:", "cl:", "cs::k2", "cn", "cp", "cd"}
+		kc.ROps = []string{"cf:", "cl:", "cs::k2", "cn", "cp"}
+	}
+	// K3: three committed transactions colliding on one key (cache add/remove interplay)
+	k3 := scenario{Name: "one-key-3tx", Cfgs: both(fsLarge), MaxTx: 3, Reopen: r.Pick(1, 2), Hold: true, HoldNeverOnly: !th, ObsBuckets: []string{""}, NoBlockObs: true,
+		WOps:  []string{"put::k1:A", "put::k1:", "del::k1", "put::k2:A", "cf:", "cn", "cd"},
+		ROps:  []string{"cf:", "cn"},
+		Depth: r.Pick(3, 5)}
 	// KB: nested buckets
-	kb := scenario{Name: "buckets", Cfgs: both(fsLarge), MaxTx: 3, Reopen: 1, Hold: false,
+	kb := scenario{Name: "buckets", Cfgs: both(fsLarge), MaxTx: r.Pick(2, 3), Reopen: 1, Hold: false, NoBlockObs: true,
 		WOps: []string{"mk:a", "mk:b", "mk:a/a", "mk:a/b", "mkq:a", "mkq:a/b", "rm:a", "rm:b", "rm:a/a", "rm:a/b",
 			"put::k1:A", "put:a:k1:B", "put:a:k2:", "put:a/b:k1:C", "del:a:k1", "del:a/b:k1",
 			"cf:", "cl:a", "cs::k1", "cs:a:k2", "cn", "cp", "cd"},
 		ROps:  []string{"cf:", "cl:", "cf:a", "cs:a:k2", "cn", "cp"},
-		Depth: r.Pick(4, 5)}
+		Depth: r.Pick(3, 4)}
 	// BL: blocks x file-size regimes
-	var blCfgs []cfg
-	for _, fs := range []string{fsTiny, fsFit2, fsLarge} {
-		blCfgs = append(blCfgs, both(fs)...)
-	}
-	bl := scenario{Name: "blocks", Cfgs: blCfgs, MaxTx: 3, Reopen: 1, Hold: true,
-		WOps:  []string{"sb:0", "sb:1", "sb:2", "put::k1:A", "del::k1"},
-		ROps:  []string{"cf:"},
-		Depth: r.Pick(5, 6)}
+	blOps := []string{"sb:0", "sb:1", "sb:2", "put::k1:A", "del::k1"}
+	bl := scenario{Name: "blocks-rollover", Cfgs: both(fsTiny), MaxTx: r.Pick(2, 3), Reopen: 1, Hold: true, HoldNeverOnly: !th, ObsBuckets: []string{""},
+		WOps: blOps, ROps: []string{"cf:"}, Depth: r.Pick(4, 5)}
+	bl2 := scenario{Name: "blocks-fit-and-large", Cfgs: append(both(fsFit2), both(fsLarge)...), MaxTx: r.Pick(2, 3), Reopen: 1, Hold: th, ObsBuckets: []string{""},
+		WOps: blOps, ROps: []string{"cf:"}, Depth: r.Pick(3, 4)}
 	// PR: pruning (dedicated)
-	pr := scenario{Name: "prune", Cfgs: both(fsTiny), MaxTx: 3, Reopen: 1, Hold: false,
+	pr := scenario{Name: "prune", Cfgs: both(fsTiny), MaxTx: r.Pick(2, 3), Reopen: 1, Hold: false, ObsBuckets: []string{""},
 		WOps:  []string{"sb:0", "sb:1", "sb:2", "pr:1", "pr:2"},
 		ROps:  nil,
-		Depth: r.Pick(5, 6)}
-	return []scenario{kc, kb, bl, pr}
+		Depth: r.Pick(4, 5)}
+	return []scenario{kc, k3, kb, bl, bl2, pr}
 }
 
 func partSeq(r *ev.Run, viols *violSet) {
@@ -47,6 +54,9 @@ func partSeq(r *ev.Run, viols *violSet) {
 		Trans    int64  `json:"transitions"`
 		Nodes    int64  `json:"committed_nodes_expanded"`
 		TJobs    int64  `json:"commit_transitions_verified_with_reopen"`
+		Reopens  int64  `json:"distinct_committed_states_closed_reopened_dumped"`
+		CommitEr int64  `json:"commits_failed_atomically_without_fault"`
+		Discs    int64  `json:"paths_cut_at_a_disagreement"`
 		Complete bool   `json:"complete"`
 	}
 	var rows []row
@@ -64,7 +74,7 @@ func partSeq(r *ev.Run, viols *violSet) {
 			r.Trans(int(x.st.trans))
 			r.Eval(int(x.st.paths + x.st.tjobs))
 			r.Trace(int(x.st.paths))
-			rows = append(rows, row{sc.Name, c.String(), sc.Depth, x.st.states, x.st.paths, x.st.trans, x.st.nodes, x.st.tjobs, complete})
+			rows = append(rows, row{sc.Name, c.String(), sc.Depth, x.st.states, x.st.paths, x.st.trans, x.st.nodes, x.st.tjobs, x.st.reopens, x.st.commitErrs, x.st.discs, complete})
 			if !complete {
 				r.Cap(fmt.Sprintf("part (a) scenario %s cfg %s: time box hit after %d paths", sc.Name, c, x.st.paths))
 			}
